@@ -1,4 +1,4 @@
-import MakoModel.Codegen.Lemmas
+import MakoModel.Codegen.Refine
 /-!
 # C13 – an exception at any point leaves the render state consistent
 
@@ -143,6 +143,62 @@ example : ∃ e l' σ', exec (progOf [(sampleRaw, none)] 0) 60
         (.for_ 2 [.lit ['i']] (.seq (.expr .loopIndex []) (.expr (.call 1 [.lit ['q']]) []))))
       (Loc.init 0) St.init).1 = .exc 0 := by decide
   exact ⟨0, _, _, by rw [← h]⟩
+
+/-! ## the handled exception and the specification renderer -/
+
+/-- **Refinement (control fragment).**  For every template built from text, `${expr | filters}` (expressions
+    without calls), `% if / for / while`, `loop`, `<%text filter>`, `return / break / continue` **and `% try` at any
+    level** – whatever the crash point and wherever the `% try` sits – the statements the generator emits append to
+    the buffer on top exactly the string `Spec.snodes` returns, end with the same outcome and the same evaluation
+    counter, and leave the same variables.  `Spec.snodes` has no stacks, so there is nothing it could have left
+    behind: the output after a handled exception is "as if every abandoned construct had been exited normally".
+
+    PARTIAL – guard `Ctl t`: constructs that involve a *callable* (`<%def>`, `<%block>`, `<%call>`, `capture`,
+    `caller.x()`, `<%include>`) are not covered by this proof.  For them the frame-level theorems above hold
+    (`abandoned_buffers_discarded`, `abandoned_buffer_content_is_dropped`, `call_appends_suffix`,
+    `caller_and_loop_restored`), and `Spec.render` is compared with the real renderer on every run of the check
+    (stream `corr.spec`).
+
+    OPEN (full statement, not proved; false as it stands, see `handled_equals_spec_counterexample`):
+    `∀ t, render (progOf ts k) o fuel` and `Spec.render ⟨ts, k⟩ o m` agree for large `m`. -/
+theorem handled_equals_spec_partial (ts : List (Tmpl × Option Bool)) (k : Nat) (t : Tmpl) (sc : Scope)
+    (hctl : Ctl t = true) (hlo : LoopOK sc t) (fuel : Nat) (l : Loc) (σ : St) (E : Spec.Env)
+    (hR : Rel l σ E) (hl : LocOK l) (hσ : StOK σ) (i : Nat) (topc : Str) (rest : List (Nat × Str))
+    (hb : σ.bufs = (i, topc) :: rest) (hw : l.writer = i) (o : Outcome) (l' : Loc) (σ' : St)
+    (he : exec (progOf ts k) fuel (stmts sc t) l σ = (o, l', σ')) (ho : o ≠ .timeout) :
+    ∃ out vars', σ'.bufs = (i, topc ++ out) :: rest ∧
+      (∃ m0, ∀ m, m0 ≤ m → Spec.snodes ⟨ts, k⟩ m t E σ.cnt = ⟨conv o, out, σ'.cnt, vars'⟩) ∧
+      ∀ x, lookup x l'.vars = lookup x vars' :=
+  (ref_all (progOf ts k) ⟨ts, k⟩ (codegen_cfg_ok ts k) rfl fuel).stmt t sc l σ E i topc rest o l' σ' hctl hlo hR hl hσ
+    hb hw he ho
+
+/-- non-vacuous: the guard, the loop condition and the state relation hold for the sample (a loop with `loop`, a
+    `% try` inside it, a filter that is the crash point, a `<%text filter>`) from the initial state -/
+example : Ctl sampleCtl = true ∧ LoopOK ⟨true, false, false, true⟩ sampleCtl ∧
+    Rel (Loc.init 0) St.init { vars := [], defs := [], caller := [], loops := [], nb := 1, nf := 0, mod := 0 } :=
+  ⟨by decide, .inl rfl, ⟨fun _ => rfl, rfl, rfl, rfl, rfl⟩⟩
+
+/-- the same for the **whole render** of a control-fragment template, with every combination of `error_handler`
+    and `format_exceptions`: `Template.render()` in the model returns what `Spec.render` returns. -/
+theorem handled_equals_spec_render_partial (ts : List (Tmpl × Option Bool)) (k : Nat) (t : Tmpl) (ieh : Option Bool)
+    (hctl : Ctl t = true) (o : Opts) (fuel : Nat)
+    (hr : (render (progOf ((t, ieh) :: ts) k) o fuel).1 ≠ .timeout) :
+    ∃ m0, ∀ m, m0 ≤ m →
+      (Spec.render ⟨(t, ieh) :: ts, k⟩ o m).2 = (render (progOf ((t, ieh) :: ts) k) o fuel).2.1 ∧
+      SameKind (render (progOf ((t, ieh) :: ts) k) o fuel).1 (Spec.render ⟨(t, ieh) :: ts, k⟩ o m).1 :=
+  render_refines_ctl ts k t ieh hctl o fuel hr
+
+/-- the sample, crash point 1 = the filter in the first iteration: the handler runs with `loop` intact, the
+    second iteration follows, both renderers agree -/
+example : (render (progOf [(sampleCtl, none)] 1) ⟨none, false⟩ 100).2.1 = "a0!1.1.012()3(z)".toList ∧
+    (Spec.render ⟨[(sampleCtl, none)], 1⟩ ⟨none, false⟩ 100).2 = "a0!1.1.012()3(z)".toList ∧
+    (render (progOf [(sampleCtl, none)] 1) ⟨none, false⟩ 100).1 ≠ .timeout := by decide +kernel
+
+/-- the unguarded statement is false of the model (because it is false of mako): an inline def that is both
+    `buffered` and `cached` writes its content at the call instead of returning it -/
+theorem handled_equals_spec_counterexample :
+    (render (progOf [(quirkTmpl, none)] 99) ⟨none, false⟩ 100).2.1 = "xp".toList ∧
+    (Spec.render ⟨[(quirkTmpl, none)], 99⟩ ⟨none, false⟩ 100).2 = "px".toList := by decide +kernel
 
 /-! ## the context after a render; rendering again -/
 
